@@ -10,6 +10,7 @@ RULE = ("programs of 2-8 commands over the built-in CSV library (EEMSRead, CvtTo
         "order, classes, argument names, cleaned values (floats bit for bit) and the results of the runnable part are compared; "
         "the text is compared with ser_program of the Coq model and the parser model is compared with the real parser on it. "
         "non-trivial = distinct serialised text with >= 2 commands")
+RULE += (' Lists of 12-40 items and strings of 150 characters; raw control characters between quotes.')
 TRUSTED = ["repr(float), str(float) and float(text) are oracles (the float texts are not modelled beyond the `.0e` repair)",
            "the abstract program handed to ser_program is read off the live Program by Python type (drivers/c15_driver.py: abstract)"]
 ASSUMPTIONS = ["result names and argument names are identifiers (the loader only produces such)",
